@@ -8,7 +8,7 @@ S(toks) == [t |-> "str", s |-> toks]
 Atoms == {[t |-> "null"], [t |-> "bool", b |-> TRUE], [t |-> "num", a |-> "0", int |-> TRUE],
           [t |-> "num", a |-> "-12", int |-> TRUE], S(<<>>), S(<<"a">>), S(<<"QUOTE", "b", "BSLASH">>),
           S(<<"NL", "C01", "EACUTE">>), [t |-> "char", s |-> <<"x">>], [t |-> "unitvar", name |-> "Uv"],
-          [t |-> "none"], [t |-> "unitstruct"], [t |-> "bytes", n |-> <<0, 255>>], [t |-> "bytes", n |-> <<>>]}
+          [t |-> "none"], [t |-> "unitstruct"], [t |-> "disp", parts |-> <<<<"a", "QUOTE", "b", "c", "NL", "d", "e", "f">>, <<"g">>, <<>>, <<"EACUTE", "h">>>>], [t |-> "bytes", n |-> <<0, 255>>], [t |-> "bytes", n |-> <<>>]}
 Keys == {S(<<"k">>), S(<<"QUOTE">>), [t |-> "char", s |-> <<"c">>], [t |-> "num", a |-> "7", int |-> TRUE],
          [t |-> "unitvar", name |-> "Kv"], [t |-> "newtype", v |-> S(<<"n">>)],
          \* newtype structs around every class of key: integers (quoted like bare ones, through any number of
@@ -17,7 +17,8 @@ Keys == {S(<<"k">>), S(<<"QUOTE">>), [t |-> "char", s |-> <<"c">>], [t |-> "num"
          [t |-> "newtype", v |-> [t |-> "newtype", v |-> [t |-> "num", a |-> "-3", int |-> TRUE]]],
          [t |-> "newtype", v |-> [t |-> "bool", b |-> TRUE]],
          [t |-> "newtype", v |-> [t |-> "seq", items |-> <<>>]],
-         [t |-> "newtype", v |-> [t |-> "unitvar", name |-> "Kv"]]}
+         [t |-> "newtype", v |-> [t |-> "unitvar", name |-> "Kv"]],
+         [t |-> "disp", parts |-> <<<<"k", "e", "y">>, <<"BSLASH">>, <<"2">>>>]}
 Lists(P) == {<<>>} \cup {<<x>> : x \in P} \cup {<<x, y>> : x \in P, y \in P}
 KV(P) == {<<>>} \cup {<<<<k, x>>>> : k \in Keys, x \in P} \cup {<<<<k, x>>, <<S(<<"z">>), y>>>> : k \in Keys, x \in P, y \in P}
 FV(P) == {<<>>} \cup {<<<<"f", x>>>> : x \in P} \cup {<<<<"f", x>>, <<"g2", y>>>> : x \in P, y \in P}
